@@ -141,6 +141,110 @@ def present(form, rows):
     raise ValueError(form)
 
 
+# ---------------------------------------------------------------------------------------------------
+# refused calls: increments the unchanged tree refuses with an exception, applied to the SAME live model in between
+# valid increments.  One letter per way of being refused that the code distinguishes; which letters exist for a feed
+# was probed on /repo (a call /repo accepts, or refuses while corrupting the model, is not a letter - see assumptions()).
+# letter -> refusal kind (vacuity() wants every kind seen for each family that has it)
+# ---------------------------------------------------------------------------------------------------
+REFUSAL_KIND = {
+    "features+1": "wrong-size",  # one feature too many
+    "features-1": "wrong-size",
+    "one-column": "wrong-size",  # (k, 1): broadcasts against the mean, refused only later
+    "pc-size": "wrong-size",  # every PointCloud has one point too many
+    "vector-1d": "wrong-rank",  # a single sample as a 1-d vector
+    "cube-3d": "wrong-rank",
+    "nan": "non-finite",  # refused by the decomposition, after the mean step
+    "inf": "non-finite",
+    "ragged": "ragged",  # rows of different length
+    "pc-mixed": "ragged",  # PointClouds of different size
+    "not-numeric": "not-numeric",
+    "none": "none",
+    "iter-short": "short-iterator",  # n_samples promises more than the iterator yields
+    "frozen": "not-incremental",  # a model built with incremental=False
+}
+PCA_REFUSALS = {
+    "array": ["features+1", "features-1", "one-column", "vector-1d", "cube-3d", "nan", "inf", "not-numeric", "none"],
+    "list": ["features+1", "features-1", "ragged", "nan", "none"],
+    "pc": ["pc-size", "pc-mixed", "nan"],
+    "pciter": ["iter-short", "pc-mixed", "nan"],
+}
+GMRF_REFUSALS = {
+    "array": ["not-numeric", "none", "frozen"],
+    "list": ["ragged", "none", "frozen"],
+    "pc": ["pc-mixed", "frozen"],
+    "pciter": ["iter-short", "pc-mixed", "frozen"],
+}
+
+
+def refused_argument(letter, feed, rows, pc_shape):
+    """(argument, keyword arguments) of a refused increment, in the form of the feed; rows = two valid samples."""
+    from menpo.shape import PointCloud
+
+    rows = np.array(rows, dtype=np.float64, copy=True)
+    k, d = rows.shape
+    kw = {}
+    if letter == "none":
+        return None, kw
+    if letter == "not-numeric":
+        return [["a"] * d for _ in range(k)], kw
+    if letter in ("nan", "inf"):
+        rows[0, min(1, d - 1)] = np.nan if letter == "nan" else np.inf
+    if feed in ("array", "list"):
+        if letter == "features+1":
+            rows = np.hstack((rows, rows[:, :1]))
+        elif letter == "features-1":
+            rows = rows[:, :-1].copy()
+        elif letter == "one-column":
+            rows = rows[:, :1].copy()
+        elif letter == "vector-1d":
+            return rows[0].copy(), kw
+        elif letter == "cube-3d":
+            return rows[None].copy(), kw
+        elif letter == "ragged":
+            return [rows[0].copy(), rows[1][:-1].copy()], kw
+        if feed == "list":
+            return [r.copy() for r in rows], kw
+        return rows, kw
+    pts = [r.reshape(pc_shape).copy() for r in rows]
+    if letter == "pc-size":
+        pts = [np.vstack((q, q[:1])) for q in pts]
+    elif letter == "pc-mixed":
+        pts[1] = np.vstack((pts[1], pts[1][:1]))
+    pcs = [PointCloud(q) for q in pts]
+    if feed == "pc":
+        return pcs, kw
+    kw["n_samples"] = len(pcs) + (1 if letter == "iter-short" else 0)
+    return iter(pcs), kw
+
+
+def _snap(a):
+    """value snapshot of an argument (None for what cannot be looked at twice)."""
+    if isinstance(a, np.ndarray):
+        return ("nd", a.shape, str(a.dtype), a.copy())
+    if isinstance(a, (list, tuple)):
+        return ("seq", type(a).__name__, [_snap(x) for x in a])
+    if hasattr(a, "points"):
+        return ("pc", np.array(a.points, copy=True))
+    if a is None or isinstance(a, (str, int, float)):
+        return ("v", a)
+    return ("opaque",)
+
+
+def _snap_equal(a, b):
+    if a[0] != b[0]:
+        return False
+    if a[0] == "nd":
+        return a[1] == b[1] and a[2] == b[2] and np.array_equal(a[3], b[3], equal_nan=True)
+    if a[0] == "seq":
+        return a[1] == b[1] and len(a[2]) == len(b[2]) and all(_snap_equal(x, y) for x, y in zip(a[2], b[2]))
+    if a[0] == "pc":
+        return np.array_equal(a[1], b[1], equal_nan=True)
+    if a[0] == "v":
+        return a[1] == b[1]
+    return True
+
+
 def _svals_ok(M):
     s = np.linalg.svd(M, compute_uv=False)
     if s[0] == 0:
@@ -560,10 +664,98 @@ class C11(Check):
     def ops(self, st, level):
         if st["model"] is None:
             return []
-        return [("inc", j) for j in range(1, st["n"] - st["consumed"] + 1)]
+        incs = list(range(1, st["n"] - st["consumed"] + 1))
+        letters = self._refusal_letters(st)
+        # refused calls first: each is a self loop (the key must not change), so the explorer keeps the live model
+        # and the valid increment that follows runs on a model that has seen all of them; then the valid increments;
+        # then every (refused call, valid increment) pair on one live model
+        out = [("refuse", r) for r in letters]
+        out += [("inc", j) for j in incs]
+        out += [("inc", j, r) for r in letters for j in incs]
+        return out
+
+    def _refusal_letters(self, st):
+        """refused-call letters are enabled on the merging roots of the smallest n (PCA: n = 6, thorough also 8; GMRF:
+        edgeless and chain, 2 features per vertex) - a fixed function of the root."""
+        root = st["root"]
+        if not st["merge"]:
+            return []
+        if st["fam"] == "pca":
+            if st["feed"] in PCA_REFUSALS and st["n"] in ((6,) if self.tier == "quick" else (6, 8)):
+                return PCA_REFUSALS[st["feed"]]
+            return []
+        if st["feed"] in GMRF_REFUSALS and st["g"] in ("edgeless", "chain") and st["k"] == 2:
+            return GMRF_REFUSALS[st["feed"]]
+        return []
+
+    # ------------------------------------------------------------------ refused calls
+    def _full_obs(self, st):
+        from mc.observe import observe
+
+        o = {"model": observe(st["model"])}
+        if st.get("frozen") is not None:
+            o["frozen"] = observe(st["frozen"])
+        return o
+
+    def _refuse(self, st, letter, verify):
+        """one refused increment on the live model: (a) raises, (b) nothing observable changes - model, argument -,
+        (c) the same call is refused again in the same way.  (d) is the ordinary oracle of whatever valid op follows."""
+        from mc.observe import obs_diff
+
+        c0 = st["consumed"]
+        rows = st["X"][c0 - 2 : c0]
+        target = st["model"]
+        if letter == "frozen":
+            if st.get("frozen") is None:
+                from menpo.model import GMRFVectorModel
+
+                st["frozen"] = GMRFVectorModel(np.array(st["X"][: st["root"][8]], copy=True), make_graph(st["g"]), mode=st["mode"], sparse=st["sparse"], bias=st["bias"], dtype=np.float64, incremental=False)
+            target = st["frozen"]
+            make = lambda: (np.array(rows, copy=True), {})  # noqa: E731  a perfectly valid increment
+        else:
+            make = lambda: refused_argument(letter, st["feed"], rows, st.get("pc_shape") or (st.get("nv"), st.get("k")))  # noqa: E731
+        fam = st["fam"]
+        where = self._where(st) + "+refused"
+        ctx = "refused call %r after increments %r (root %r)" % (letter, st["hist"], st["root"])
+        before = self._full_obs(st) if verify else None
+        outcomes = []
+        fails = []
+        for attempt in (1, 2):
+            arg, kw = make()
+            snap = _snap(arg)
+            _, err = _try(lambda: target.increment(arg, **kw))
+            outcomes.append(err)
+            if not verify:
+                return []
+            if err is None:
+                self.note("%s-refusal:%s-ACCEPTED" % (fam, REFUSAL_KIND[letter]))
+                return [Failure(where, "refused-call-accepted", "increment did not raise: %s" % ctx)]
+            if not _snap_equal(snap, _snap(arg)):
+                fails.append(Failure(where, "refused-call-changed-its-argument", ctx))
+            diff = obs_diff(before, self._full_obs(st))
+            if diff is not None:
+                fails.append(Failure(where, "refused-call-changed-the-model", "attempt %d raised %s but the model is no longer what it was: %s; %s" % (attempt, err, diff, ctx)))
+                break
+        if len(outcomes) == 2 and outcomes[0] != outcomes[1]:
+            fails.append(Failure(where, "refused-call-retry-differs", "first %s, then %s; %s" % (outcomes[0], outcomes[1], ctx)))
+        if letter == "frozen" and outcomes and outcomes[0] and not outcomes[0].startswith("ValueError"):
+            fails.append(Failure(where, "refused-call-exception-class", "a model built with incremental=False raised %s, not ValueError; %s" % (outcomes[0], ctx)))
+        self.note("%s-refusal:%s" % (fam, REFUSAL_KIND[letter]))
+        self.note("%s-refusal-letter:%s" % (fam, letter))
+        self.note("%s-refusal-raised:%s" % (fam, (outcomes[0] or "").split(":")[0]))
+        return fails
 
     # ------------------------------------------------------------------ step
     def apply(self, st, op, verify=True):
+        if op[0] == "refuse":
+            return self._refuse(st, op[1], verify)
+        if len(op) > 2:
+            # a refused call, then a valid increment on the same live model: (d) the valid increment must behave as if
+            # the refused call had never been made (all the ordinary oracles below)
+            pre = self._refuse(st, op[2], verify)
+            if pre:
+                return pre
+            self.note("%s-refusal:then-valid-increment" % st["fam"])
         j = int(op[1])
         c0 = st["consumed"]
         rows = st["X"][c0 : c0 + j]
@@ -724,6 +916,11 @@ class C11(Check):
             "gmrf-k:1",
             "gmrf-k:2",
         ]
+        need += ["pca-refusal:%s" % k for k in sorted(set(REFUSAL_KIND[r] for v in PCA_REFUSALS.values() for r in v))]
+        need += ["gmrf-refusal:%s" % k for k in sorted(set(REFUSAL_KIND[r] for v in GMRF_REFUSALS.values() for r in v))]
+        need += ["pca-refusal-letter:%s" % r for r in sorted(set(r for v in PCA_REFUSALS.values() for r in v))]
+        need += ["gmrf-refusal-letter:%s" % r for r in sorted(set(r for v in GMRF_REFUSALS.values() for r in v))]
+        need += ["pca-refusal:then-valid-increment", "gmrf-refusal:then-valid-increment"]
         need += ["pca-form:%s" % f for f in FORMS] + ["gmrf-form:%s" % f for f in FORMS if FORMS[f][1]] + ["pca-data:int"]
         need += ["pca-data:%s" % k for k in PCA_DATA] + ["pca-feed:%s" % f for f in PCA_FEED] + ["gmrf-feed:%s" % f for f in GMRF_FEED]
         need += ["gmrf-graph:%s" % g for g in (GRAPHS_QUICK if self.tier == "quick" else GRAPHS_THOROUGH)]
@@ -752,6 +949,7 @@ class C11(Check):
             "pca_d": ds,
             "pca_data_letters": PCA_DATA,
             "pca_feed_letters": PCA_FEED,
+            "refused_call_letters": {"pca": PCA_REFUSALS, "gmrf": GMRF_REFUSALS, "kinds": REFUSAL_KIND},
             "argument_forms": {f: {"also_initial_batch": bool(v[0]), "gmrf": bool(v[1]), "single_precision_tolerance_x1e4": bool(v[2])} for f, v in FORMS.items()},
             "pca_compositions_per_n": {str(n): 2 ** (n - 2) for n in ns},
             "gmrf_graphs": GRAPHS_QUICK if self.tier == "quick" else GRAPHS_THOROUGH,
@@ -770,6 +968,10 @@ class C11(Check):
             "argument forms (integer payload in float32 / int64 / int32 / int16 / int8 / uint8 / uint16, python lists and tuples of floats and ints, numpy scalars, "
             "lists of rows, read-only, strided, Fortran-order, numpy-integer n_samples) are letters only where the unchanged tree accepts them: the PCA constructor "
             "refuses integer and read-only input (it centres in place), so those forms are fed to increment() only; np.matrix is refused / mis-indexed; bool is not a sample matrix",
+            "refused-call letters exist only where the unchanged tree refuses cleanly.  NOT letters (reported to the coordinator): a GMRF increment with the wrong number of features "
+            "(or a 1-d / 3-d / one-column block) raises ValueError / IndexError only after `self.precision = 0` and after the edge covariances have been advanced in place, so the model "
+            "is left without a precision matrix and later valid increments disagree with the batch model; NaN / inf samples are accepted silently by the GMRF (and an empty block by the "
+            "uncentred PCA model), so they are not refusals at all",
             "'random chunkings for larger n' of the quantifier are sampling and outside the technique; every composition of every n in scope is covered instead",
             "states reached by different chunkings of the same prefix are merged when their observations agree within a tenth of the tolerance (after their own step oracle passed); "
             "merge=0 roots and the thorough-tier confluence re-expansion do not rely on that abstraction",
